@@ -43,6 +43,8 @@ from harness.engine_suites import COMPLETE, CONTINUABLE, HALT, Runner, Trace, pa
 # Signatures (without the `synth:<prop>:` prefix) that fire on the UNCHANGED tree, were adjudicated as real engine defects
 # and wait for a decision: the oracle stays, the REPORTING is off unless VERIF_SYNTH_PENDING=1.  fnmatch patterns.
 PENDING: list[str] = []
+# S10 (C12, fixed by F52 42f7a42): ContinueParentStage marked a parent TERMINAL without recording a stage event; signature
+#     synth:replay-mismatch:stage:store=TERMINAL:replay=RUNNING:written-by-ContinueParentStage
 # History: the patterns below fired on /repo 2858e20 and were gated here while they waited for a decision.  All of them were
 # repaired by `fix:` commits (F44-F51, DESIGN.md section 5.1) and are reported again like every other signature; their
 # witnesses run first on every check (replays/<prop>/F4x-synth-*.json).
@@ -519,11 +521,107 @@ def smon_c01(t: Trace) -> list[tuple[str, str]]:
     return hits
 
 
-S_OUTCOME = {"smon_c05", "smon_c17", "smon_c01"}
+
+RECORDED_S = set("STFX")     # scripted outcomes that record a result (no execution afterwards); R = poll, U = suspend, E = transient
+
+
+def smon_c02_reexec(t: Trace) -> list[tuple[str, str]]:
+    """C02, second clause: a task whose result has been recorded is never executed again (children included); the oracle of
+    engine_suites.mon_c02_reexec with the scripts of children (no jumps here, so no iteration boundaries)"""
+    lay = Lay(t.spec)
+    hits = []
+    recorded: dict[tuple[int, int], str] = {}
+    for k in range(1, len(t.lines)):
+        for (s_, tt, n, _seen) in t.ledger[t.ledger_len[k - 1]:t.ledger_len[k]]:
+            sc = lay.scripts(s_)[tt]
+            oc = sc[min(n - 1, len(sc) - 1)]
+            if (s_, tt) in recorded:
+                hits.append((f"reexecuted-after:{recorded[(s_, tt)]}:{lay.role(s_)}",
+                             f"task {s_}.{tt} ({lay.role(s_)} stage) executed again (execution #{n}) after its result {recorded[(s_, tt)]} was recorded, op {t.ops[k - 1]}"))
+            if oc[0] in RECORDED_S:
+                recorded[(s_, tt)] = oc[0]
+    return hits[:1]
+
+
+def smon_c02_outcome(t: Trace) -> list[tuple[str, str]]:
+    """C02, first clause: without crashes any delivery order / redelivery ends like the in-order run: workflow, every stage
+    (children included), every task status, per-task execution counts.  Exclusions of DESIGN section 6: workflows with a halting
+    task result (a failing branch racing its siblings) and reference runs that themselves halted are not compared."""
+    ref = t.meta.get("fifo_ref")
+    if not ref or not ref.get("healthy") or not t.quiesced:
+        return []
+    lay = Lay(t.spec)
+    if any(o[0] in "TX" for _, sc in lay.all_scripts() for o in sc):
+        return []
+    if any(x in ("TERMINAL", "STOPPED", "CANCELED") for x in ref["stages"]):
+        return []
+    got = s_outcome(t)
+    fin = t.final()
+    if got["wf"] != ref["wf"] or got["stages"] != ref["stages"]:
+        if fin["wf"] not in COMPLETE:
+            cause = s_wedge_cause(t, fin, lay)
+        elif s_exhausted(t) is not None:
+            cause = "wait-budget:" + s_wedge_cause(t, parse_line(t.lines[s_exhausted(t)]), lay)
+        else:
+            i = next((j for j, (a, b) in enumerate(zip(got["stages"], ref["stages"])) if a != b), None)
+            cause = f"final-statuses:{lay.role(i)}:{got['stages'][i]}-vs-{ref['stages'][i]}" if i is not None else f"final-statuses:workflow:{got['wf']}-vs-{ref['wf']}"
+        return [(f"outcome-differs-from-fifo:{cause}", f"schedule {t.tag}: final {got['wf']} {got['stages']} vs in-order run {ref['wf']} {ref['stages']}")]
+    if got["execs"] != ref["execs"]:
+        key = sorted(k_ for k_ in set(got["execs"]) | set(ref["execs"]) if got["execs"].get(k_, 0) != ref["execs"].get(k_, 0))[0]
+        return [(f"executions-differ-from-fifo:{lay.role(int(key.split('.')[0]))}", f"schedule {t.tag}: task executions {got['execs']} vs in-order run {ref['execs']}")]
+    if got["tasks"] != ref["tasks"]:
+        pairs = sorted({f"{a}-vs-{b}" for x, y in zip(got["tasks"], ref["tasks"]) for a, b in zip(x, y) if a != b})
+        return [("task-statuses-differ-from-fifo:" + "+".join(pairs), f"schedule {t.tag}: same statuses and executions, task statuses {got['tasks']} vs {ref['tasks']}")]
+    return []
+
+
+def smon_c10(t: Trace) -> list[tuple[str, str]]:
+    """C10 (the oracle of engine_suites.mon_c10, children included): a sweep injected into a healthy run - between two deliveries
+    or by another worker inside a delivery - changes no outcome and causes no extra execution; after a kill, two sweeps in a row
+    end like one sweep and at most the in-flight step is repeated"""
+    ref = t.meta.get("ref")
+    if not ref or not ref.get("healthy"):
+        return []
+    lay = Lay(t.spec)
+    hits = []
+    got = s_outcome(t)
+    kind = t.meta.get("kind", "healthy")
+    code = t.meta.get("sweep_before") or "?"
+    inside = ""
+    if code.startswith("inside@"):
+        inside, code = code.split(":", 1)
+    si = code_stage(code)
+    where = (inside + ":" if inside else "before-") + code.split(".")[0] + (f"[{lay.role(si)}]" if si is not None and si < lay.total else "")
+    href = t.meta.get("ref_healthy")
+    if href and href.get("healthy"):
+        extra = sum(got["execs"].values()) - sum(href["execs"].values())
+        if extra > 1:
+            hits.append((f"after-crash:more-than-inflight-step-repeated:{where}", f"{extra} extra task executions after one crash in {t.meta.get('crash_msg')} followed by sweep(s): {got['execs']} vs {href['execs']}"))
+    if any(o[0] in "TX" for _, sc in lay.all_scripts() for o in sc):
+        # a failing branch racing its siblings (DESIGN section 6, "Order-dependent references"): the no-op duplicates a sweep
+        # pushes take delivery slots of the in-order schedule, so who is CANCELED and who still ran depends on them like on any
+        # other reordering.  Judged there: the run still ends, and no task whose result is recorded executes again.
+        if got["quiesced"] != ref["quiesced"] or (got["wf"] in COMPLETE) != (ref["wf"] in COMPLETE):
+            hits.append((f"{kind}:outcome-changed-by-sweep:{where}:not-finished", f"{kind}: sweep {where}: final {got['wf']} quiesced={got['quiesced']} vs reference {ref['wf']}"))
+        if not any(o[0] == "k" for o in t.ops):      # (after a kill the in-flight task legitimately runs again)
+            for sig, what in smon_c02_reexec(t):
+                hits.append((f"{kind}:extra-execution-by-sweep:{where}:{sig}", f"{kind}: sweep {where}: {what}"))
+        return hits
+    if got["quiesced"] != ref["quiesced"] or got["wf"] != ref["wf"] or got["stages"] != ref["stages"]:
+        hits.append((f"{kind}:outcome-changed-by-sweep:{where}", f"{kind}: sweep {where} ({t.meta.get('sweep_before')}): final {got['wf']} {got['stages']} vs reference {ref['wf']} {ref['stages']}"))
+    if got["execs"] != ref["execs"]:
+        hits.append((f"{kind}:extra-execution-by-sweep:{where}", f"{kind}: sweep {where} ({t.meta.get('sweep_before')}): executions {got['execs']} vs reference {ref['execs']}"))
+    return hits
+
+
+S_OUTCOME = {"smon_c05", "smon_c17", "smon_c01", "smon_c02_outcome", "smon_c10", "mon_c18"}
 S_MONITORS = {
     "C05": [smon_c05, es.mon_c06],
     "C17": [smon_c17, es.mon_c06],
     "C01": [smon_c01, es.mon_c06, smon_c05],
+    "C02": [smon_c02_reexec, smon_c02_outcome],
+    "C10": [smon_c10, es.mon_c06],
+    "C18": [es.mon_c18, es.mon_c06],
 }
 _BY_NAME = {m.__name__: m for ms in S_MONITORS.values() for m in ms}
 
@@ -674,6 +772,178 @@ def produce_crash(rng: random.Random, wd: Path, tier: str, npoints: int = 5) -> 
     return out
 
 
+
+def _deliver_until(r: SRunner, j: int) -> None:
+    for _ in range(j):
+        p = r.eligible(True)
+        if not p:
+            break
+        r.apply(("d", p[0][0]))
+
+
+def produce_c02s(rng: random.Random, wd: Path) -> list[dict]:
+    """C02: one workflow (no suspending task: nothing is injected), the in-order reference run, and two crash-free schedules
+    of it: random order / redelivery of unacknowledged messages / one row starved / a second worker delivering other messages
+    while a task executes"""
+    spec = gen_synth_spec(rng, suspend=False, directed=rng.choice([None, None, "after", "before"]))
+    ref = s_fifo_ref(spec, wd)
+    ref.tag = "synth/c02-fifo"
+    ref_out = s_outcome(ref)
+    ref.meta = {"fifo_ref": ref_out}
+    out = [es.pack(ref)]
+    for _ in range(2):
+        r = SRunner(spec, wd)
+        mode = rng.choice(["rand", "rand", "dup", "dup", "starve"])
+        victim = None
+        for _step in range(260):
+            p = r.eligible(True)
+            if not p:
+                break
+            if mode == "starve":
+                if victim is None and rng.random() < 0.25:
+                    victim = rng.choice(p)[0]
+                if victim is not None and any(x[0] != victim for x in p):
+                    p = [x for x in p if x[0] != victim]
+                elif victim is not None:
+                    victim = None
+            rid, rcode = (p[0][0], p[0][1]) if mode == "starve" else (lambda x: (x[0], x[1]))(rng.choice(p))
+            others = [x for x in p if x[0] != rid and not (x[1].startswith("RT.") and x[1] == rcode)]
+            if rcode.startswith("RT.") and others and rng.random() < 0.2:
+                r.apply(("n", rid, [x[0] for x in rng.sample(others, min(len(others), rng.choice([1, 1, 2])))]))
+            elif mode == "dup" and rng.random() < 0.25:
+                r.apply(("x", rid))
+            else:
+                r.apply(("d", rid))
+        t = r.finish()
+        t.tag = f"synth/c02-{mode}"
+        t.meta = {"fifo_ref": ref_out}
+        out.append(es.pack(t))
+    return out
+
+
+def produce_c10s(rng: random.Random, wd: Path, tier: str) -> list[dict]:
+    """C10: a healthy in-order run; one or two sweeps before delivery step j; a sweep by ANOTHER worker right after the k-th
+    commit of delivery j (op i<row>.<k>); after a kill, one sweep vs two sweeps in a row"""
+    spec = gen_synth_spec(rng, suspend=False, directed=rng.choice([None, "after", "before", "before"]))
+    ref = s_fifo_ref(spec, wd)
+    ref.tag = "synth/c10-ref"
+    ref_out = s_outcome(ref)
+    out = [es.pack(ref)]
+    steps = len([o for o in ref.ops if o[0] == "d"])
+    thorough = tier == "thorough"
+    for j in (range(steps + 1) if thorough else rng.sample(range(steps + 1), min(steps + 1, 5))):
+        r = SRunner(spec, wd)
+        _deliver_until(r, j)
+        p = r.eligible(True)
+        for _ in range(rng.choice([1, 1, 2])):
+            r.apply(("w",))
+        r.drain(None, "fifo", max_steps=300)
+        t = r.finish()
+        t.tag = "synth/c10-sweep"
+        t.meta = {"ref": ref_out, "kind": "healthy", "sweep_before": p[0][1] if p else "end"}
+        out.append(es.pack(t))
+    for j in (range(steps) if thorough else rng.sample(range(steps), min(steps, 5))):
+        for k in ((0, 1, 2) if thorough else (rng.choice([1, 1, 2, 0]),)):
+            r = SRunner(spec, wd)
+            _deliver_until(r, j)
+            p = r.eligible(True)
+            if not p:
+                r.finish()
+                continue
+            rid, code, _ = p[0]
+            r.apply(("i", rid, k))
+            r.drain(None, "fifo", max_steps=300)
+            t = r.finish()
+            if not any(o[0] == "i" for o in t.ops):
+                continue
+            t.tag = f"synth/c10-sweep-inside@{k}"
+            t.meta = {"ref": ref_out, "kind": "healthy", "sweep_before": f"inside@{k}:{code}"}
+            out.append(es.pack(t))
+    if steps:
+        for _ in range(2 if not thorough else 6):
+            j, k = rng.randrange(steps), rng.randint(0, 2)
+            finals = []
+            code = "?"
+            for nsweeps in (1, 2):
+                r = SRunner(spec, wd)
+                _deliver_until(r, j)
+                p = r.eligible(True)
+                if not p:
+                    r.finish()
+                    break
+                rid, code, _ = p[0]
+                r.apply(("k", rid, k))
+                for _i in range(nsweeps):
+                    r.apply(("w",))
+                r.e.expire_locks()
+                r.drain(None, "fifo", max_steps=300)
+                t = r.finish()
+                t.tag = f"synth/c10-crash-sweep{nsweeps}"
+                t.meta = {"kind": f"after-crash-{nsweeps}", "crash_msg": code, "crash_k": k, "ref_healthy": ref_out, "sweep_before": code}
+                finals.append(t)
+            if len(finals) == 2:
+                finals[1].meta["ref"] = dict(s_outcome(finals[0]), healthy=True)
+                finals[1].meta["ref_ops"] = list(finals[0].ops)      # the reference of this trace is the ONE-sweep run, not the in-order run
+                finals[1].meta["kind"] = "after-crash:two-sweeps-vs-one"
+                for t in finals:
+                    out.append(es.pack(t))
+    return out
+
+
+def produce_c18s(rng: random.Random, wd: Path) -> dict:
+    """C18: a CHILD stage (before- or after-stage) whose task suspends k times (script U^k S); m persistent / transient signals
+    for it at random moments - before its parent started, before the child itself started (a persistent one is buffered),
+    while it runs, after it suspended, or only once nothing else is deliverable; in-order / random / redelivery / kill of the
+    signal or of the suspending RunTask followed by restart + sweep + late redelivery"""
+    n = rng.choice([1, 1, 2])
+    stages = []
+    for i in range(n):
+        stages.append(StageSpec(reqs=([i - 1] if i and rng.random() < 0.6 else []), tasks=[["S"] for _ in range(rng.choice([0, 1, 1, 2]))]))
+    par = rng.randrange(n)
+    own = rng.choice(["B", "A"])
+    k = rng.choice([1, 1, 2])
+    kids = [{"owner": own, "tasks": [["U"] * k + ["S"]]}]
+    if rng.random() < 0.5:
+        kids.insert(rng.randrange(2), {"owner": own, "tasks": [list(rng.choice([["S"], ["S"], ["R", "S"]]))]})     # a sibling of the waiting child
+    if rng.random() < 0.4:
+        kids.append({"owner": "A" if own == "B" else "B", "tasks": [["S"]]})
+    stages[par].synth = sorted(kids, key=lambda c: c["owner"] != "B")
+    if own == "A" and not stages[par].tasks and rng.random() < 0.5:
+        stages[par].tasks = [["S"]]
+    spec = Spec(stages)
+    lay = Lay(spec)
+    tgt = next(i for i in range(lay.n, lay.total) if "U" in lay.scripts(i)[0])
+    r = SRunner(spec, wd)
+    mode = rng.choice(["fifo", "rand", "dup", "crash"])
+    nsig = rng.choice([0, 1, 1, 2, 3]) if mode != "crash" else rng.choice([1, 1, 2, 3])
+    sig_at = sorted(rng.choice([rng.randint(0, 12), rng.randint(0, 45), 10 ** 6]) for _ in range(nsig))     # 10**6 = only at quiescence
+    step = 0
+    for _ in range(300):
+        while sig_at and sig_at[0] <= step:
+            sig_at.pop(0)
+            r.apply(("g", tgt, rng.random() < 0.7))
+        p = r.eligible(True)
+        if not p:
+            if sig_at:
+                step = sig_at[0]
+                continue
+            break
+        rid, code = (p[0][0], p[0][1]) if mode in ("fifo", "crash") else (lambda x: (x[0], x[1]))(rng.choice(p))
+        if mode == "dup" and rng.random() < 0.15:
+            r.apply(("x", rid))
+        elif mode == "crash" and (code.startswith("SG.") or code.startswith(f"RT.{tgt}.")) and rng.random() < 0.5:
+            r.apply(("k", rid, rng.choice([0, 1, 1, 2])))
+            r.apply(("w",))
+            es.hold_then_expire(r, rng.choice([0, 0, 1, 2]))
+        else:
+            r.apply(("d", rid))
+        step += 1
+    t = r.finish()
+    t.tag = f"synth/c18-{mode}:{'before' if own == 'B' else 'after'}-stage"
+    t.meta = {"signal_stage": tgt, "signal_task": 0, "suspends": k}
+    return es.pack(t)
+
+
 def _worker(args) -> dict:
     prop, seed, count, tier = args
     core.ensure_repo_on_path()
@@ -686,7 +956,13 @@ def _worker(args) -> dict:
     try:
         for j in range(count):
             try:
-                if prop == "C01" or (prop == "C05" and j % 4 == 3):
+                if prop == "C02":
+                    out.extend(produce_c02s(rng, wd))
+                elif prop == "C10":
+                    out.extend(produce_c10s(rng, wd, tier))
+                elif prop == "C18":
+                    out.append(produce_c18s(rng, wd))
+                elif prop == "C01" or (prop == "C05" and j % 4 == 3):
                     # every kill point per workflow only in C01's thorough tier; C05 samples 3 (quick) / 8 (thorough)
                     out.extend(produce_crash(rng, wd, tier if prop == "C01" else "quick",
                                              npoints=5 if prop == "C01" else (8 if tier == "thorough" else 3)))
@@ -725,11 +1001,38 @@ def s_replay_trace(spec: Spec, ops: list[str], wd: Path, meta: dict | None = Non
     for o in ops:
         s_apply_str(r, o)
     t = r.finish()
-    t.meta = dict(meta or {})
+    t.meta = fresh_meta(spec, meta or {}, wd) if fresh_ref else dict(meta or {})
     t.respecting = respecting
-    if fresh_ref and "ref" in t.meta:
-        t.meta["ref"] = s_outcome(s_fifo_ref(spec, wd))     # the uninterrupted run ON THE TREE UNDER TEST
     return t
+
+
+_FIFO_CACHE: dict[str, dict] = {}
+
+
+def fresh_meta(spec: Spec, meta: dict, wd: Path) -> dict:
+    """the reference outcomes of a trace recomputed ON THE TREE UNDER TEST: the in-order run (`ref`, `fifo_ref`, `ref_healthy`),
+    or the run named by `ref_ops` (C10: the one-sweep run a two-sweep run is compared with)"""
+    m = dict(meta)
+    if not any(k_ in m for k_ in ("ref", "fifo_ref", "ref_healthy")):
+        return m
+    key = core.repo_root().as_posix() + json.dumps(spec.to_json(), sort_keys=True)
+    if key not in _FIFO_CACHE:
+        if len(_FIFO_CACHE) > 400:
+            _FIFO_CACHE.clear()
+        _FIFO_CACHE[key] = s_outcome(s_fifo_ref(spec, wd))
+    fifo = _FIFO_CACHE[key]
+    if "ref_ops" in m:
+        r = SRunner(spec, wd)
+        for o in m["ref_ops"]:
+            s_apply_str(r, o)
+        m["ref"] = dict(s_outcome(r.finish()), healthy=True)
+    elif "ref" in m:
+        m["ref"] = fifo
+    if "fifo_ref" in m:
+        m["fifo_ref"] = fifo
+    if "ref_healthy" in m:
+        m["ref_healthy"] = fifo
+    return m
 
 
 # ---- minimisation -------------------------------------------------------------------
@@ -744,8 +1047,8 @@ def sym_ops(t: Trace) -> list[tuple]:
         kind = o[0]
         if kind in "dx":
             out.append((kind, t.op_msg[k]))
-        elif kind == "k":
-            out.append(("k", t.op_msg[k], int(o.split(".")[1])))
+        elif kind in "ki":
+            out.append((kind, t.op_msg[k], int(o.split(".")[1])))
         elif kind == "n":
             out.append(("n", t.op_msg[k], tuple(t.op_inner[k])))
         elif kind == "g":
@@ -770,10 +1073,10 @@ def run_sym(spec: Spec, ops: list[tuple], wd: Path, drain: bool = True) -> tuple
             rid = find(op[1])
             if rid is not None:
                 r.apply((kind, rid))
-        elif kind == "k":
+        elif kind in ("k", "i"):
             rid = find(op[1])
             if rid is not None:
-                r.apply(("k", rid, op[2]))
+                r.apply((kind, rid, op[2]))
         elif kind == "n":
             rid = find(op[1])
             inner = [x for x in (find(c) for c in op[2]) if x is not None and x != rid]
@@ -807,7 +1110,7 @@ def _remap_code(code: str | None, m: dict[int, int | None]) -> str | None:
 def _remap_ops(ops: list[tuple], m: dict[int, int | None]) -> list[tuple]:
     out = []
     for op in ops:
-        if op[0] in ("d", "x", "k"):
+        if op[0] in ("d", "x", "k", "i"):
             c = _remap_code(op[1], m)
             if c is not None:
                 out.append((op[0], c) + tuple(op[2:]))
@@ -891,15 +1194,15 @@ def s_shrink(t: Trace, mon, sig: str, wd: Path, budget: int = 200) -> dict | Non
         tries[0] += 1
         try:
             tt, npre = run_sym(spec, ops, wd)
-            tt.meta = dict(meta)
+            tt.meta = fresh_meta(spec, meta, wd)
             tt.respecting = t.respecting
-            if "ref" in meta:
-                tt.meta["ref"] = s_outcome(s_fifo_ref(spec, wd))
             ok = any(s_ == sig for _, s_, _ in _signatures(tt, [mon]))
         except Exception:
             return None
         return (tt, npre) if ok else None
 
+    if "ref_ops" in meta0:
+        return None          # compared with another concrete run of the same workflow: reported as found
     spec, ops, meta = t.spec, sym_ops(t), meta0
     best = attempt(spec, ops, meta)
     if best is None:
@@ -934,6 +1237,12 @@ def s_shrink(t: Trace, mon, sig: str, wd: Path, budget: int = 200) -> dict | Non
                 new_meta = dict(meta)
                 if meta.get("crash_msg"):
                     new_meta["crash_msg"] = _remap_code(meta["crash_msg"], m) or meta["crash_msg"]
+                if meta.get("signal_stage") is not None:
+                    if m.get(meta["signal_stage"], meta["signal_stage"]) is None:
+                        continue                 # the signalled stage itself cannot be dropped
+                    new_meta["signal_stage"] = m.get(meta["signal_stage"], meta["signal_stage"])
+                if meta.get("sweep_before") and ":" not in meta["sweep_before"]:
+                    new_meta["sweep_before"] = _remap_code(meta["sweep_before"], m) or meta["sweep_before"]
                 got = attempt(sp, _remap_ops(ops, m), new_meta)
                 if got is not None:
                     spec, ops, meta, best, progress = sp, _remap_ops(ops, m), new_meta, got, True
@@ -953,13 +1262,67 @@ def s_shrink(t: Trace, mon, sig: str, wd: Path, budget: int = 200) -> dict | Non
     ops, best = ddmin(spec, ops, meta, best)
     spec, ops, meta, best = simplify_spec(spec, ops, meta, best, budget + 20)
     tt, npre = best
-    return {"spec": spec, "ops": tt.ops, "essential": npre, "meta": {k: v for k, v in tt.meta.items()}, "tries": tries[0]}
+    return {"spec": spec, "ops": tt.ops, "sym": ops, "essential": npre, "meta": {k: v for k, v in tt.meta.items()}, "tries": tries[0]}
+
+
+def sym_to_json(ops: list[tuple]) -> list[list]:
+    return [[*op[:2], list(op[2])] if op[0] == "n" else list(op) for op in ops]
+
+
+def sym_from_json(ops: list[list]) -> list[tuple]:
+    return [(op[0], op[1], tuple(op[2])) if op[0] == "n" else tuple(op) for op in ops]
+
+
+def run_witness(rp: dict, wd: Path) -> Trace:
+    """Re-run a recorded input on the tree under test.  A witness is "schedule, then in-order budget-respecting drain"; the
+    schedule is symbolic (`sym`: deliver the oldest pending row with message code X, ...) because row ids differ between
+    trees.  Older files without `sym`: the concrete ops of the schedule prefix as far as they still name a pending row."""
+    spec = Spec.from_json(rp["spec"])
+    if rp.get("exact"):
+        return s_replay_trace(spec, rp["ops"], wd, rp.get("meta"), rp.get("respecting", True), fresh_ref=True)
+    if rp.get("sym") is not None:
+        t, _ = run_sym(spec, sym_from_json(rp["sym"]), wd)
+    else:
+        r = SRunner(spec, wd)
+        m_ = re.match(r"ops\[:(\d+)\]", rp.get("schedule_then_in_order_drain") or "")
+        for o in (rp["ops"][:int(m_.group(1))] if m_ else rp["ops"]):
+            if o[0] in "dxkin" and int(re.match(r"[dxkin](\d+)", o).group(1)) not in {i for i, _, _ in r.e.pending()}:
+                continue
+            s_apply_str(r, o)
+        r.e.expire_locks()
+        r.drain(None, "fifo", max_steps=300)
+        t = r.finish()
+    t.meta = fresh_meta(spec, rp.get("meta") or {}, wd)
+    t.respecting = rp.get("respecting", True)
+    return t
 
 
 def pending(sig: str) -> bool:
     from fnmatch import fnmatchcase
 
     return any(fnmatchcase(sig, p) for p in PENDING)
+
+
+def corpus(prop: str) -> list[Trace]:
+    """committed witnesses replays/<prop>/*.json with `kind_synth` (minimised inputs of repaired findings): re-run first on every
+    check, with the reference outcomes recomputed on the tree under test"""
+    out = []
+    d = core.VERIF / "replays" / prop
+    if not d.is_dir():
+        return out
+    wd = core.scratch_dir()
+    try:
+        for f in sorted(d.glob("*.json")):
+            body = json.loads(f.read_text())
+            rp = body.get("replay") or body
+            if not (isinstance(rp, dict) and rp.get("kind_synth")):
+                continue
+            t = run_witness(rp, wd)
+            t.tag = "synth/corpus:" + f.stem[:40]
+            out.append(t)
+    finally:
+        shutil.rmtree(wd, ignore_errors=True)
+    return out
 
 
 def run_for(ctx, prop: str) -> None:
@@ -969,7 +1332,8 @@ def run_for(ctx, prop: str) -> None:
 
     t0 = time.time()
     logging.disable(logging.CRITICAL)
-    total = {"C05": ctx.n(480, 1600), "C17": ctx.n(480, 3200), "C01": ctx.n(64, 64)}[prop]
+    total = {"C05": ctx.n(480, 1600), "C17": ctx.n(480, 3200), "C01": ctx.n(64, 64),
+             "C02": ctx.n(128, 800), "C10": ctx.n(40, 64), "C18": ctx.n(480, 3200)}[prop]
     nproc = min(16, max(1, os.cpu_count() or 1))
     per = max(1, total // nproc)
     jobs = [(prop, f"{ctx.seed}:{i}", per, ctx.tier) for i in range(nproc)]
@@ -984,11 +1348,12 @@ def run_for(ctx, prop: str) -> None:
                     traces.append(es.unpack(d))
     if errors:
         raise core.Infra("synthetic-stage trace production failed: " + errors[0][-1500:])
+    traces = corpus(prop) + traces
     consume(ctx, prop, traces)
     fam = ctx.extra.setdefault("synthetic_stage_family", {"model": "none (implementation-only monitors)", "traces": 0, "per_mode": {}, "wall_s": 0.0})
     fam["traces"] += len(traces)
     for t in traces:
-        mode = t.tag.split("/", 1)[-1]
+        mode = t.tag.split("/", 1)[-1].split(":")[0]
         fam["per_mode"][mode] = fam["per_mode"].get(mode, 0) + 1
     fam["wall_s"] = round(fam["wall_s"] + time.time() - t0, 1)
     fam["monitors"] = [m.__name__ for m in S_MONITORS[prop]]
@@ -1004,7 +1369,7 @@ def consume(ctx, prop: str, traces: list[Trace]) -> None:
         lay = Lay(t.spec)
         nontrivial = len(t.ops) >= 8 and (any(o[0] != "d" for o in t.ops) or t.ops != sorted(t.ops, key=lambda o: int(o[1:]) if o[1:].isdigit() else 0))
         ctx.count(["synth", t.spec.to_json(), t.ops], nontrivial=nontrivial)
-        ctx.tag("model-free:synthetic-stages", "synth:sched:" + t.tag.split("/", 1)[-1], "synth:wf:" + t.final()["wf"],
+        ctx.tag("model-free:synthetic-stages", "synth:sched:" + t.tag.split("/", 1)[-1].split(":")[0], "synth:wf:" + t.final()["wf"],
                 "synth:quiesced" if t.quiesced else "synth:cut")
         ctx.tag("synth:children:" + "".join(sorted(own for _, own, _ in lay.kids)))
         for m in mons:
@@ -1032,12 +1397,15 @@ def consume(ctx, prop: str, traces: list[Trace]) -> None:
             if wd is None:
                 wd = core.scratch_dir()
             core.ensure_repo_on_path()
-            small = s_shrink(t, _BY_NAME[mname], sig, wd)
+            n_shrunk = getattr(ctx, "_synth_shrunk", 0)
+            small = s_shrink(t, _BY_NAME[mname], sig, wd) if n_shrunk < 8 else None      # (a broken tree can fire dozens of signatures)
+            setattr(ctx, "_synth_shrunk", n_shrunk + 1)
             sspec, sops, smeta = (small["spec"], small["ops"], small["meta"]) if small else (t.spec, t.ops, t.meta)
             slay = Lay(sspec)
             ctx.violation(what, full_sig, {"kind_synth": True, "prop": prop, "spec": sspec.to_json(), "ops": sops,
+                                           "sym": sym_to_json(small["sym"] if small else sym_ops(t)),
                                            "schedule_then_in_order_drain": (f"ops[:{small['essential']}] are the schedule, the rest is the in-order drain"
-                                                                            if small else "not minimised (symbolic re-run did not reproduce)"),
+                                                                            if small else "not minimised (more than 8 signatures in this run, or the symbolic re-run did not reproduce)"),
                                            "original_spec": t.spec.to_json(), "original_ops": t.ops,
                                            "monitor": mname, "signature": sig, "respecting": t.respecting, "meta": smeta, "tag": t.tag,
                                            "children": [{"index": slay.n + c, "parent": par, "owner": own} for c, (par, own, _) in enumerate(slay.kids)]})
@@ -1051,6 +1419,31 @@ def consume(ctx, prop: str, traces: list[Trace]) -> None:
                          f"(set VERIF_SYNTH_PENDING=1 to report them): {dict(seen_pending)}")
     if wd is not None:
         shutil.rmtree(wd, ignore_errors=True)
+
+
+class PrefixCtx:
+    """For the checks that have their own suites and oracles (C12, C13): the check's ctx with every monitor signature prefixed
+    `synth:` - hits on synthetic-stage workloads are told apart from the plain ones - and the PENDING gate applied to the
+    prefixed signature; everything else is the real ctx."""
+
+    def __init__(self, ctx) -> None:
+        object.__setattr__(self, "_ctx", ctx)
+
+    def __getattr__(self, name):
+        return getattr(self._ctx, name)
+
+    def __setattr__(self, name, value) -> None:
+        setattr(self._ctx, name, value)
+
+    def violation(self, what, signature, replay) -> None:
+        sig = "synth:" + signature
+        if pending(sig) and os.environ.get("VERIF_SYNTH_PENDING") != "1":
+            self._ctx.tag("synth-pending(not reported; VERIF_SYNTH_PENDING=1 reports it):" + sig)
+            return
+        self._ctx.violation(what, sig, replay)
+
+    def tag(self, *names) -> None:
+        self._ctx.tag(*("synth:" + n for n in names))
 
 
 def is_synth_replay(body: dict) -> bool:
@@ -1067,8 +1460,8 @@ def replay(ctx, body: dict) -> int:
         import logging
 
         logging.disable(logging.CRITICAL)
-        t = s_replay_trace(spec, rp["ops"], wd, rp.get("meta"), rp.get("respecting", True), fresh_ref=True)
-        print(f"  synthetic-stage replay (implementation-only): {lay.n} top-level stage(s); children: " +
+        t = run_witness(rp, wd)
+        print(f"  synthetic-stage replay (implementation-only; the recorded schedule, then the in-order drain, on this tree): {lay.n} top-level stage(s); children: " +
               (", ".join(f"S{lay.n + c}={'before' if own == 'B' else 'after'}-stage of S{par}" for c, (par, own, _) in enumerate(lay.kids)) or "none"))
         print(f"  start: {es.short(t.lines[0])}")
         for k, o in enumerate(t.ops):
@@ -1096,7 +1489,7 @@ def _cli() -> None:
     logging.disable(logging.CRITICAL)
     if sys.argv[1] == "sweep":
         prop, seed = sys.argv[2], sys.argv[3]
-        total = int(sys.argv[4]) if len(sys.argv) > 4 else {"C05": 480, "C17": 480, "C01": 64}[prop]
+        total = int(sys.argv[4]) if len(sys.argv) > 4 else {"C05": 480, "C17": 480, "C01": 64, "C02": 128, "C10": 40, "C18": 480}[prop]
         nproc = min(16, os.cpu_count() or 1)
         jobs = [(prop, f"{seed}:{i}", max(1, total // nproc), "quick") for i in range(nproc)]
         cnt: Counter = Counter()
@@ -1134,7 +1527,7 @@ def _cli() -> None:
     prop = sys.argv[1]
     spec = Spec.from_json(json.loads(sys.argv[2]))
     ops = sys.argv[3].split(",")
-    print(replay(type("C", (), {"prop": prop})(), {"kind_synth": True, "prop": prop, "spec": spec.to_json(), "ops": ops, "meta": {}}))
+    print(replay(type("C", (), {"prop": prop})(), {"kind_synth": True, "exact": True, "prop": prop, "spec": spec.to_json(), "ops": ops, "meta": {}}))
 
 
 if __name__ == "__main__":
